@@ -19,8 +19,12 @@ class Ctx:
         self.rng = C.Rng(seed * 1000003 + int(pid[1:]))
         self.quick = tier == "quick"
 
+        self.escalate = False   # set when an anchored function differs from the recorded baseline
+
     def n(self, quick, thorough):
-        return quick if self.quick else thorough
+        if not self.quick:
+            return thorough
+        return min(thorough, 3 * quick) if self.escalate else quick
 
 
 class Result:
@@ -58,16 +62,21 @@ def main(argv):
     thm = C.recheck_theorems(pid) if ok_build else {"obligations": 1, "discharged": 0, "theorems": [], "closed": 0,
                                                     "axioms": [], "ok": False, "output": build_out, "banned": []}
     mod = importlib.import_module(f"harness.{pid.lower()}")
-    res = Result()
-    crash = None
-    try:
-        mod.run(ctx, res)
-    except Exception:  # noqa  -- fail closed: a crashing harness is an alarm, not a pass
-        crash = traceback.format_exc()
-
     hashes = C.source_hashes(getattr(mod, "ANCHORS", []))
     base = C.baseline_hashes(pid)
     changed = sorted(k for k in hashes if base and base.get(k) != hashes[k])
+    ctx.escalate = bool(changed)     # changed code is where the defects are: larger correspondence on this run
+    res = Result()
+    crash = None
+    tracer = C.LineTracer(getattr(mod, "ANCHORS", [])) if (tier == "thorough" or os.environ.get("VERIF_TRACE")) else None
+    try:
+        if tracer:
+            with tracer:
+                mod.run(ctx, res)
+        else:
+            mod.run(ctx, res)
+    except Exception:  # noqa  -- fail closed: a crashing harness is an alarm, not a pass
+        crash = traceback.format_exc()
 
     # ------------------------------------------------------------ verdict
     known = [f for f in C.known_findings() if f.get("property") == pid]
@@ -138,6 +147,7 @@ def main(argv):
         "exhaustive": bool(res.exhaustive),
         "source_hashes": hashes,
         "anchored_functions_changed_since_baseline": changed,
+        "unreached_anchored_lines": tracer.report() if tracer else "line tracer runs in the thorough tier (or VERIF_TRACE=1)",
         "repo": C.REPO,
     }
     C.write_evidence(pid, tier, seed, cov,
